@@ -389,3 +389,104 @@ pub fn redundant_twins(f: &mut dyn FnMut(G)) {
         }
     }
 }
+
+/// Plain sequences `cmd S1 S2 .. Sk;` of up to `maxlen` segments from a five-entry menu over two
+/// letters (`a`, `b`, `a...`, `(a|b)`, `[a]`): long chains of states that differ only in how
+/// far they are from the end, with repetitions and choices in between — the other shape (next
+/// to `loop_segments`) on which a partition-refinement work list goes through many self-splits.
+pub fn segment_sequences(maxlen: usize, f: &mut dyn FnMut(G)) {
+    let lit = E::lit;
+    let menu: Vec<E> = vec![lit("a"), lit("b"), E::Many(Box::new(lit("a"))), E::Alt(vec![lit("a"), lit("b")]), E::Opt(Box::new(lit("a")))];
+    fn rec(menu: &[E], cur: &mut Vec<E>, left: usize, f: &mut dyn FnMut(G)) {
+        if cur.len() >= 2 {
+            f(call(E::Seq(cur.clone())));
+        }
+        if left == 0 {
+            return;
+        }
+        for m in menu {
+            cur.push(m.clone());
+            rec(menu, cur, left - 1, f);
+            cur.pop();
+        }
+    }
+    rec(&menu, &mut vec![], maxlen, f);
+}
+
+/// Words made of two or three juxtaposed factors from a menu rich in repetition and optionality
+/// (`[a]...[b]...`, `a...[b]`, `(a|b)...a`): within-word automata whose start state is
+/// accepting or has a loop, the shapes a second pass over an already numbered automaton confuses.
+pub fn word_stars(f: &mut dyn FnMut(G)) {
+    let lit = E::lit;
+    let opt = |e: E| E::Opt(Box::new(e));
+    let many = |e: E| E::Many(Box::new(e));
+    let ab = || E::Alt(vec![lit("a"), lit("b")]);
+    let menu: Vec<E> = vec![lit("a"), lit("b"), opt(lit("a")), opt(lit("b")), many(lit("a")), many(opt(lit("a"))), many(opt(lit("b"))), many(ab()), many(opt(ab())), opt(ab())];
+    let plain = |e: &E| matches!(e, E::Lit(..));
+    let mut emit = |fs: Vec<E>, f: &mut dyn FnMut(G)| {
+        if fs.windows(2).any(|w| plain(&w[0]) && plain(&w[1])) {
+            return;
+        }
+        f(call(E::Word(fs.clone())));
+        f(call(E::Seq(vec![E::Word(fs), lit("t")])));
+    };
+    for x in &menu {
+        for y in &menu {
+            emit(vec![x.clone(), y.clone()], f);
+            for z in &menu {
+                emit(vec![x.clone(), y.clone(), z.clone()], f);
+            }
+        }
+    }
+}
+
+/// Items of different kinds with the same text at one point (`ls a | {{{ ls }}} b`, a command
+/// and a per-shell definition running the same command line): they are different expectations.
+pub fn kind_twins(f: &mut dyn FnMut(G)) {
+    let lit = E::lit;
+    let pairs: Vec<(E, E)> = vec![(lit("c1"), E::cmd("c1")), (lit("ls"), E::cmd("ls")), (E::cmd("c1"), E::r("X")), (lit("c1"), E::r("X"))];
+    for (x, y) in pairs {
+        for (l, r) in [(x.clone(), y.clone()), (y.clone(), x.clone())] {
+            for main in [
+                E::Alt(vec![E::Seq(vec![l.clone(), lit("a")]), E::Seq(vec![r.clone(), lit("b")])]),
+                E::Fb(vec![E::Seq(vec![l.clone(), lit("a")]), E::Seq(vec![r.clone(), lit("b")])]),
+                E::Seq(vec![E::Alt(vec![l.clone(), E::Seq(vec![r.clone(), lit("b")])]), lit("t")]),
+                E::Alt(vec![E::Seq(vec![E::Word(vec![lit("k="), l.clone()]), lit("a")]), E::Seq(vec![E::Word(vec![lit("k="), r.clone()]), lit("b")])]),
+            ] {
+                let mut g = call(main);
+                for sh in ["bash", "fish", "zsh", "pwsh"] {
+                    g.stmts.push(Stmt::Def { name: "X".into(), shell: Some(sh.into()), expr: E::cmd("c1") });
+                }
+                f(g);
+            }
+        }
+    }
+}
+
+/// A definition whose body is a word made only of `||` groups, referenced under two different
+/// outer `||` levels (the only way to meet one within-word expression at two levels).
+pub fn fallback_only_words(f: &mut dyn FnMut(G)) {
+    let lit = E::lit;
+    let fb = |a: &str, b: &str| E::Fb(vec![lit(a), lit(b)]);
+    let bodies: Vec<E> = vec![
+        E::Word(vec![fb("a", "b"), fb("c", "d")]),
+        E::Word(vec![lit("--a="), fb("p", "q")]),
+        E::Word(vec![lit("--a="), E::Alt(vec![lit("p"), lit("q")])]),
+        E::Word(vec![fb("a", "b"), E::r("U")]),
+        E::Word(vec![fb("a", "b"), E::cmd("c1")]),
+    ];
+    let s = || E::r("S");
+    let mains: Vec<E> = vec![
+        E::Alt(vec![E::Seq(vec![lit("k"), E::Fb(vec![s(), lit("m")])]), E::Seq(vec![lit("j"), E::Fb(vec![lit("m"), s()])])]),
+        E::Alt(vec![E::Seq(vec![lit("k"), E::Fb(vec![lit("m"), s()])]), E::Seq(vec![lit("j"), E::Fb(vec![s(), lit("m")])])]),
+        E::Fb(vec![E::Seq(vec![s(), lit("y")]), E::Seq(vec![lit("n"), s(), lit("z")])]),
+        E::Seq(vec![E::Fb(vec![lit("m"), s()]), E::Fb(vec![s(), lit("m")])]),
+        E::Fb(vec![lit("m"), lit("n"), s()]),
+    ];
+    for b in &bodies {
+        for m in &mains {
+            f(G { stmts: vec![Stmt::Call { name: CMD.into(), expr: m.clone() }, def("S", b.clone())] });
+            f(G { stmts: vec![def("S", b.clone()), Stmt::Call { name: CMD.into(), expr: m.clone() }] });
+        }
+    }
+}
